@@ -593,6 +593,12 @@ type Result struct {
 	//
 	// TODO(d.kolyshev): Get rid of this flag.
 	IsFiltered bool `json:",omitempty"`
+
+	// CanonNameRewritten is true if Reason is Rewritten and the legacy
+	// rewrites also cover CanonName itself, so that an empty IPList means
+	// that CanonName has no value of the requested type and must not be
+	// resolved by the upstream.
+	CanonNameRewritten bool `json:"-"`
 }
 
 // Matched returns true if any match at all was found regardless of
@@ -699,6 +705,14 @@ func (d *DNSFilter) processRewrites(host string, qtype uint16) (res Result) {
 	}
 
 	setRewriteResult(&res, host, rewrites, qtype)
+
+	// The canonical name is covered by the table, and not by a CNAME entry
+	// that ended the chase (a "*.example.com → sub.example.com" loop): it has
+	// a value of the requested type, or none, and then the answer is the CNAME
+	// alone, as it is empty when the name itself is requested.
+	res.CanonNameRewritten = res.CanonName != "" &&
+		matched &&
+		(len(rewrites) == 0 || rewrites[0].Type != dns.TypeCNAME)
 
 	return res
 }
